@@ -64,6 +64,8 @@ def classesOf (ty : String) (cs : List (FromForm × Chain)) : List String :=
   (if folded.any (fun fc => let os := (ops fc.2).zipIdx
         os.any (fun (o, i) => (o == .inter && os.any (fun (o', j) => o' == .union && i < j)) || (o == .except && i + 1 < os.length)))
     then ["C15_fold_no_precedence"] else []) ++
+  -- EXCEPT inside `FROM(..) ^ SIZE(..)`: the fold keeps the base and ignores what is excluded
+  (if folded.any (fun fc => (ops fc.2).any (· == .except)) then ["C15_fold_except_ignored"] else []) ++
   -- a range whose table order differs from code-point order (PrintableString only)
   (if ty == "PrintableString" && cs.any (fun fc => (fc.2.first :: fc.2.rest.map (·.2)).any (fun e => match e with
         | .range (some l) (some h) _ => (match t.index l, t.index h with | some a, some b => decide (a > b) != decide (l > h) || true | _, _ => false)
